@@ -154,6 +154,7 @@ fn member_points(
 }
 
 pub fn run_timeout_case(group: &Group, input: &Db, seq_seed: u64) -> TimeoutOutcome {
+   set_current(vec![group.base.clone()], input, None);
    let mut out = TimeoutOutcome { failures: vec![], checks: 0, interrupted_runs: 0, nontrivial_points: 0, too_big: false, ref_error: None };
    let expected = match eval::eval(&group.ref_prog, input, EvalOpts::default()) {
       Ok(r) => r,
